@@ -134,13 +134,14 @@ class C11(Check):
     per_case_timeout = 10
     technique = ('machine-checked proof (Coq 8.16) about an executable model of the pthread primitives and of libnstd\'s wrappers '
                  '+ deterministic-scheduler correspondence (real library code on virtual primitives, same move list as the model)')
-    level_text = ('Theorems in Coq (20, closed under the global context) about every state reachable by ANY list of scheduler moves '
+    level_text = ('Theorems in Coq (22, closed under the global context) about every state reachable by ANY list of scheduler moves '
                   '(run a thread\'s pending primitive call, spurious wake-up, timeout, timeout-steal = a woken timed waiter past its '
                   'deadline reports ETIMEDOUT although the signal was directed at it (POSIX-permitted), clock advance, rotation of a '
                   'condition queue) from any scripts of library calls, any number of threads, any initial signal state and semaphore '
                   'value. Theorems about libnstd\'s own logic on the modelled primitives: Signal wait true only if set since the last '
-                  'reset, a blocked waiter with the flag up implies an enabled pending unlock/broadcast of set(), the broadcast leaves '
-                  'nobody blocked; Monitor successful waits + flag <= sets, a set() that found a blocked waiter leaves an enabled '
+                  'reset, a blocked waiter with the flag up implies a setter standing at its enabled broadcast (Signal::set = lock; '
+                  'flag; broadcast; unlock - fixes/C10/04), the broadcast leaves nobody blocked, the setter owns the internal mutex '
+                  'from the flag write to its unlock and that unlock is the last primitive call of set(); Monitor successful waits + flag <= sets, a set() that found a blocked waiter leaves an enabled '
                   'signaller or a woken waiter that - whatever the return code of its condition wait, 0 or ETIMEDOUT - consumes the flag '
                   'and returns true (the same clause is proved FALSE, monitor_set_releases_a_waiter_refuted_before_repair, of the '
                   'wait(timeout) that returned false before looking at the flag: fixes/C11/01); timed waits return false only at/after start+timeout (deadline arithmetic exact and normalised). '
